@@ -334,6 +334,14 @@ Example C15_nonvacuous :
   = [FFrame [1; 2; 3]%N; FFrame []; FFrame [9]%N; FEnd].
 Proof. vm_compute. repeat split; reflexivity. Qed.
 
+(* ---- part sock: the tcp / unix front ends with custom framing (SockFront.v) ---- *)
+From TarpcV Require Import SockFront SockFrontProofs.
+Theorem C15_sock_model_ok : forall ms, sk_ok ms (sk_model ms) = true.
+Proof. exact sk_model_ok. Qed.
+
+Theorem C15_sock_ok_only : forall ms tr, sk_ok ms tr = true -> tr = sk_model ms.
+Proof. exact sk_ok_only. Qed.
+
 Print Assumptions C15_monitor.
 Print Assumptions C15_monitor_channels.
 Print Assumptions C15_close_signals_end.
@@ -377,3 +385,5 @@ Print Assumptions C15_framing_total.
 Print Assumptions C15_fifo.
 Print Assumptions C15_fifo_order.
 Print Assumptions C15_kind_i32_prefix_refuted.
+Print Assumptions C15_sock_model_ok.
+Print Assumptions C15_sock_ok_only.
